@@ -3,7 +3,7 @@ use scale_info::{form::PortableForm, interner::Interner, Path, PortableRegistryB
 use serde_json::{json, Value};
 
 fn ty_of(i: u64) -> Type<PortableForm> {
-    Type::new(Path::from_segments_unchecked(vec![format!("T{i}")]), vec![], TypeDefPrimitive::U8, vec![])
+    Type::new(Path::from_segments_unchecked(vec![format!("T{i:06}")]), vec![], TypeDefPrimitive::U8, vec![])
 }
 
 fn ty_index(t: &Type<PortableForm>) -> u64 {
@@ -79,21 +79,28 @@ pub fn handle(op: &str, cmd: &Value) -> Value {
             json!({"all_ok": ok_empty && ok_ident && ok_ns && ok_disp, "is_empty": ok_empty, "ident": ok_ident, "namespace": ok_ns, "display": ok_disp})
         }
         "table_step" => table_step(cmd),
+        "json_decode" => {
+            let r: Result<scale_info::PortableRegistry, _> = serde_json::from_value(cmd["json"].clone());
+            json!({"ok": r.is_ok()})
+        }
         "builder_history" => {
             // pattern[i] = index (in the list model) of the value registered at step i
             let pat: Vec<u64> = cmd["pattern"].as_array().unwrap().iter().map(|x| x.as_u64().unwrap()).collect();
+            // order[j] = which value (in the order of Ord) the j-th distinct value is; identity if absent
+            let order: Option<Vec<u64>> = cmd["order"].as_array().map(|a| a.iter().map(|x| x.as_u64().unwrap()).collect());
+            let val = |p: u64| order.as_ref().and_then(|o| o.get(p as usize).copied()).unwrap_or(p);
             let mut b = PortableRegistryBuilder::new();
             let mut ok = true; let mut n = 0u64;
             for p in &pat {
                 ok &= b.next_type_id() as u64 == n;
-                let id = b.register_type(ty_of(*p)) as u64;
+                let id = b.register_type(ty_of(val(*p))) as u64;
                 ok &= id == *p;
                 if *p == n { n += 1; }
             }
-            for i in 0..n { ok &= b.get(i as u32).map(ty_index) == Some(i); }
+            for i in 0..n { ok &= b.get(i as u32).map(ty_index) == Some(val(i)); }
             ok &= b.get(n as u32).is_none();
             let r = b.finish();
-            ok &= r.types.len() as u64 == n && r.types.iter().enumerate().all(|(i, t)| t.id as usize == i && ty_index(&t.ty) == i as u64);
+            ok &= r.types.len() as u64 == n && r.types.iter().enumerate().all(|(i, t)| t.id as usize == i && ty_index(&t.ty) == val(i as u64));
             json!({"ok": ok})
         }
         "corpus_bytes_nodocs" => {
@@ -199,6 +206,35 @@ pub fn handle(op: &str, cmd: &Value) -> Value {
             let lib_of_ref = scale_info::PortableRegistry::decode(&mut &ref_bytes[..]);
             json!({"bytes": bytes, "roundtrip_ok": roundtrip_ok, "ref_encode_ok": ref_bytes == bytes, "ref_decode_ok": ref_decode_ok && matches!(&lib_of_ref, Ok(r) if *r == reg), "ref_bytes": ref_bytes})
         }
+        "codec_lengths" => {
+            // a registry holding one type whose vectors have the requested lengths (length-abstraction counterexamples)
+            use scale::{Decode, Encode};
+            use scale_info::{Field, Variant, TypeDefComposite, TypeDefVariant, TypeDefTuple, TypeDefSequence, TypeDefArray, TypeDefCompact, TypeDefBitSequence, TypeParameter, TypeDef, PortableType, PortableRegistry};
+            let l = |k: &str| cmd["lens"][k].as_u64().unwrap_or(0) as usize;
+            if cmd["lens"].as_object().map(|o| o.values().any(|v| v.as_u64().unwrap_or(0) > (1 << 21))).unwrap_or(false) { return json!({"too_large": true, "roundtrip_ok": true, "ref_encode_ok": true}); }
+            let strs = |n: usize| (0..n).map(|i| format!("d{i}")).collect::<Vec<String>>();
+            let field = |docs: usize| Field::<PortableForm>::new(Some("f".to_string()), 0u32.into(), Some("T".to_string()), strs(docs));
+            let variant = |i: usize, nf: usize, nd: usize| Variant::<PortableForm>::new(format!("V{i}"), (0..nf).map(|_| field(0)).collect(), (i % 256) as u8, strs(nd));
+            let entry = cmd["entry"].as_str().unwrap();
+            let def: TypeDef<PortableForm> = match (entry, cmd["defkind"].as_u64().unwrap_or(0)) {
+                ("Field", _) => TypeDefComposite::new(vec![field(l("field.docs"))]).into(),
+                ("Variant", _) => TypeDefVariant::new(vec![variant(0, l("variant.fields"), l("variant.docs"))]).into(),
+                (_, 0) => TypeDefComposite::new((0..l("composite.fields")).map(|_| field(0))).into(),
+                (_, 1) => TypeDefVariant::new((0..l("variant.variants")).map(|i| variant(i, 0, 0))).into(),
+                (_, 2) => TypeDefSequence::new(0u32.into()).into(),
+                (_, 3) => TypeDefArray::new(3, 0u32.into()).into(),
+                (_, 4) => TypeDefTuple::new_portable((0..l("tuple.fields")).map(|_| 0u32.into())).into(),
+                (_, 6) => TypeDefCompact::new(0u32.into()).into(),
+                (_, 7) => TypeDefBitSequence::new_portable(0u32.into(), 0u32.into()).into(),
+                _ => TypeDefPrimitive::U8.into(),
+            };
+            let t = Type::new(Path::from_segments_unchecked(strs(if entry == "Type" { l("path.segments") } else { 1 })), (0..if entry == "Type" { l("type.type_params") } else { 0 }).map(|i| TypeParameter::new_portable(format!("P{i}"), None)).collect::<Vec<_>>(), def, strs(if entry == "Type" { l("type.docs") } else { 0 }));
+            let n = if entry == "PortableRegistry" { l("registry.types") } else { 1 };
+            let reg = PortableRegistry { types: (0..n).map(|i| PortableType::new(i as u32, if i == 0 { t.clone() } else { ty_of(i as u64) })).collect() };
+            let bytes = reg.encode();
+            let back = PortableRegistry::decode(&mut &bytes[..]);
+            json!({"roundtrip_ok": matches!(&back, Ok(r) if *r == reg), "ref_encode_ok": crate::v14::encode_registry(&reg) == bytes, "nbytes": bytes.len()})
+        }
         "builder_laws" => crate::builders::battery(),
         "registry_laws" => crate::laws::battery(cmd["seed"].as_u64().unwrap_or(0)),
         "metatype_laws" => crate::meta::laws(),
@@ -234,6 +270,13 @@ pub fn handle(op: &str, cmd: &Value) -> Value {
                 }
             }
             ok &= it.elements() == &model[..];
+            for (i, m) in model.iter().enumerate() {
+                ok &= it.get(m).map(|s| s.into_untracked().id as usize) == Some(i);
+                ok &= it.resolve(it.get(m).unwrap()) == Some(m);
+            }
+            for absent in 0..=(vals.iter().max().copied().unwrap_or(0) + 1) {
+                if !model.contains(&absent) { ok &= it.get(&absent).is_none(); }
+            }
             json!({"ok": ok})
         }
         _ => json!({"error": format!("unknown op {op}")}),
